@@ -6,13 +6,16 @@
    Over the search model (timeout = first expiry at poll k, any k; any repetition table):
    the returned move is a generated legal move of the root (C11_legal), no legal move => no move (C11_none),
    legal moves + completed first pass => a move (C11_some); alphabeta only returns realistic scores.
-   OPEN: termination of the model's fuel needs "captures remove a man" for generated moves (relative
-   version proved in SearchFacts: search_exact_rel); lifting `legals` to Rules.legal_moves is C01.
+   CLOSED in this round: `legals` IS Rules.legal_moves on every reachable board (C01), so the returned move is legal
+   under the rules (C11_legal_rules), none is returned when the rules give no legal move (C11_none_rules), one is
+   returned when they give some and the first pass completes (C11_some_rules); and the model's fuel is never the
+   reason for stopping: captures remove a man, so with fuel above the number of men (<= 32) and the full pass
+   budget the search model terminates by itself (C11_terminates).
    Also decided per run by the poll-exact correspondence on counting timeouts and the spec monitor
    "returned move is in Rules.legal_moves". *)
 From Coq Require Import NArith ZArith List Bool.
 From Chess Require Import base.Types model.Score model.Board model.MoveGen model.Search spec.Rules spec.GameTree
-  proofs.GameTreeFacts proofs.SearchOrder spec.IterSpec proofs.SearchFacts.
+  proofs.GameTreeFacts proofs.SearchOrder spec.IterSpec proofs.SearchFacts proofs.LegalDefs proofs.Reachable proofs.ReachableMore.
 Local Open Scope N_scope.
 
 Theorem C11_alphabeta_exact : forall t w, GameTree.alphabeta w SMin SMax t = GameTree.minimax w t.
@@ -43,3 +46,26 @@ Theorem C11_some : forall k tf passes fuel root sc best st',
   fst (fst (fst (Search.search k tf (S passes) fuel root))) <> None.
 Proof. exact search_some_all. Qed.
 Print Assumptions C11_some.
+
+Theorem C11_legal_rules : forall k tf passes fuel root m sc d f, Reachable root ->
+  Search.search k tf passes fuel root = (Some m, sc, d, f) -> In m (legal_moves (Board.abs root)).
+Proof. exact search_move_legal_rules. Qed.
+Print Assumptions C11_legal_rules.
+
+Theorem C11_none_rules : forall k tf passes fuel root, Reachable root -> legal_moves (Board.abs root) = nil ->
+  fst (fst (fst (Search.search k tf passes fuel root))) = None.
+Proof. exact search_none_rules. Qed.
+Print Assumptions C11_none_rules.
+
+Theorem C11_some_rules : forall k tf passes fuel root sc best st', Reachable root ->
+  legal_moves (Board.abs root) <> nil ->
+  pass k tf (fuel + N.to_nat 0) root 0 None {| s_polls := 0; s_evals := 0 |} = PassDone sc best st' ->
+  fst (fst (fst (Search.search k tf (S passes) fuel root))) <> None.
+Proof. exact search_some_rules. Qed.
+Print Assumptions C11_some_rules.
+
+Theorem C11_terminates : forall k tf passes fuel root,
+  Reachable root -> (32 < fuel)%nat -> 65536 <= N.of_nat passes ->
+  snd (Search.search k tf passes fuel root) = false.
+Proof. exact search_terminates_reachable. Qed.
+Print Assumptions C11_terminates.
